@@ -1985,40 +1985,68 @@ func (s *SelectStatement) GroupByOffset() (time.Duration, error) {
 // SetTimeRange sets the start and end time of the select statement to [start, end). i.e. start inclusive, end exclusive.
 // This is used commonly for continuous queries so the start and end are in buckets.
 func (s *SelectStatement) SetTimeRange(start, end time.Time) error {
-	cond := fmt.Sprintf("time >= '%s' AND time < '%s'", start.UTC().Format(time.RFC3339Nano), end.UTC().Format(time.RFC3339Nano))
-	if s.Condition != nil {
-		cond = fmt.Sprintf("%s AND %s", s.rewriteWithoutTimeDimensions(), cond)
+	var cond Expr = &BinaryExpr{
+		Op:  GTE,
+		LHS: &VarRef{Val: "time"},
+		RHS: &StringLiteral{Val: start.UTC().Format(time.RFC3339Nano)},
 	}
-
-	expr, err := NewParser(strings.NewReader(cond)).ParseExpr()
-	if err != nil {
-		return err
+	if s.Condition != nil {
+		rest := s.rewriteWithoutTimeDimensions()
+		// A disjunction keeps its grouping next to the appended AND.
+		if b, ok := rest.(*BinaryExpr); ok && b.Op == OR {
+			rest = &ParenExpr{Expr: rest}
+		}
+		cond = &BinaryExpr{Op: AND, LHS: rest, RHS: cond}
+	}
+	cond = &BinaryExpr{
+		Op:  AND,
+		LHS: cond,
+		RHS: &BinaryExpr{
+			Op:  LT,
+			LHS: &VarRef{Val: "time"},
+			RHS: &StringLiteral{Val: end.UTC().Format(time.RFC3339Nano)},
+		},
 	}
 
 	// Fold out any previously replaced time dimensions and set the condition.
-	s.Condition = Reduce(expr, nil)
+	s.Condition = Reduce(cond, nil)
 
 	return nil
 }
 
 // rewriteWithoutTimeDimensions will remove any WHERE time... clauses from the select statement.
 // This is necessary when setting an explicit time range to override any that previously existed.
-func (s *SelectStatement) rewriteWithoutTimeDimensions() string {
+// A time clause is a comparison with the time column on either side, as ConditionExpr reads it.
+func (s *SelectStatement) rewriteWithoutTimeDimensions() Expr {
 	n := RewriteFunc(s.Condition, func(n Node) Node {
 		switch n := n.(type) {
 		case *BinaryExpr:
-			if n.LHS.String() == "time" {
-				return &BooleanLiteral{Val: true}
+			switch n.Op {
+			case EQ, NEQ, LT, LTE, GT, GTE:
+				if isTimeRef(n.LHS) || isTimeRef(n.RHS) {
+					return &BooleanLiteral{Val: true}
+				}
 			}
 			return n
-		case *Call:
-			return &BooleanLiteral{Val: true}
 		default:
 			return n
 		}
 	})
 
-	return n.String()
+	return n.(Expr)
+}
+
+// isTimeRef returns true if the expression is a reference to the time column.
+func isTimeRef(expr Expr) bool {
+	for {
+		p, ok := expr.(*ParenExpr)
+		if !ok {
+			break
+		}
+		expr = p.Expr
+	}
+	ref, ok := expr.(*VarRef)
+	return ok && strings.ToLower(ref.Val) == "time"
 }
 
 func encodeMeasurement(mm *Measurement) *internal.Measurement {
